@@ -1,30 +1,25 @@
 import SrModel
+import Gen
 /-!
 Line-protocol driver: one request per line on stdin, one answer per line on stdout.
-Run with `lake env lean --run Main.lean`.  Imports only `SrModel` (core Lean, no Mathlib).
-Unknown or malformed requests answer `bad-op` — never a default.
+Run with `lake env lean --run Main.lean`.  Imports only `SrModel` and `Gen` (core Lean, no Mathlib).
+Each model module exports `handle : List String → Option String`; unknown or malformed
+requests answer `bad-op` — never a default.
 -/
 open SrModel
 
-def parseBits (s : String) : Option (List Bool) :=
-  if s == "-" then some [] else
-  s.toList.mapM (fun c => if c == '1' then some true else if c == '0' then some false else none)
+def handlers : List (List String → Option String) := [
+  Adaptive.handle
+]
 
-def handle (line : String) : String :=
-  match (line.trimAscii.toString.splitOn " ").filter (· ≠ "") with
-  | ["c10", md, forced, bits] =>
-    match md.toNat?, parseBits bits with
-    | some md, some bs =>
-      if forced == "1" then Adaptive.showRes (Adaptive.run md true (Adaptive.oracleOf bs))
-      else if forced == "0" then Adaptive.showRes (Adaptive.run md false (Adaptive.oracleOf bs))
-      else "bad-op"
-    | _, _ => "bad-op"
-  | _ => "bad-op"
+def handleLine (line : String) : String :=
+  let ws := (line.trimAscii.toString.splitOn " ").filter (· ≠ "")
+  (handlers.findSome? (fun h => h ws)).getD "bad-op"
 
 partial def loop (h : IO.FS.Stream) (out : IO.FS.Stream) : IO Unit := do
   let line ← h.getLine
   if line.isEmpty then return ()
-  out.putStrLn (handle line)
+  out.putStrLn (handleLine line)
   loop h out
 
 def main : IO Unit := do
